@@ -124,7 +124,7 @@ func srvRespBytes() []byte {
 	return ttlv.MarshalTTLV(&msg)
 }
 
-const srvEncVariants = 4
+const srvEncVariants = 5
 const srvPlainVariants = 2
 
 // framed, undecodable with a ttlv.ErrEncoding
@@ -142,6 +142,13 @@ func srvEncBytes(variant int) []byte {
 			e.TextString(kmip.TagRequestHeader, "not a header")
 		})
 		return enc.Bytes()
+	case 4: // the last item of the innermost structure (the minor version) is not padded; every enclosing length is consistent with that
+		return []byte{0x42, 0x00, 0x78, 0x01, 0, 0, 0, 44,
+			0x42, 0x00, 0x77, 0x01, 0, 0, 0, 36,
+			0x42, 0x00, 0x69, 0x01, 0, 0, 0, 28,
+			0x42, 0x00, 0x6A, 0x02, 0, 0, 0, 4, 0, 0, 0, 1, 0, 0, 0, 0,
+			0x42, 0x00, 0x6B, 0x02, 0, 0, 0, 4, 0, 0, 0, 4,
+			0, 0, 0, 0}
 	default: // request message with a missing batch item payload and a wrong batch count type
 		enc := ttlv.NewTTLVEncoder()
 		enc.Struct(kmip.TagRequestMessage, func(e *ttlv.Encoder) {
